@@ -26,7 +26,7 @@ func (c16) Assumptions() []string {
 		"termination is decided up to 20000 Binder.Get calls per start; the wall-clock watchdog is only a safety net (inconclusive)",
 	}
 }
-func (c16) NumCases(tier string) int      { return tierN(tier, 4000, 120000) }
+func (c16) NumCases(tier string) int      { return tierN(tier, 4000, 1000000) }
 func (c16) MinNontrivial(tier string) int { return tierN(tier, 800, 8000) }
 
 type c16Cfg struct {
@@ -146,7 +146,9 @@ func genC16Config(c *core.Ctx) c16Cfg {
 	t["comp"] = []string{"pa", "pab"}[c.Rng.Intn(2)]
 	for i := 1; i <= 6; i++ {
 		k := fmt.Sprintf("k%d", i)
-		switch c.Rng.Intn(9) {
+		switch c.Rng.Intn(10) {
+		case 9: // configured empty string: present (only nil and empty collections count as absent)
+			t[k] = ""
 		case 0: // absent
 		case 1:
 			t[k] = map[string]any{}
